@@ -421,7 +421,7 @@ def _is_empty_container(e):
     return False
 
 
-def r_grown_state_reset(ctx, repo, classes):
+def r_grown_state_reset(ctx, repo, classes, minimum=8):
     rule = ctx.rule('R-GROWN-STATE-RESET', 'an instance attribute that starts as an empty container and is filled while documents are '
                                            'processed is either emptied / re-created somewhere outside __init__ or also shrinks (a '
                                            'stack): nothing accumulates from one document (or call) to the next')
@@ -471,8 +471,8 @@ def r_grown_state_reset(ctx, repo, classes):
                           'self.%s is created empty by %s.__init__, filled by %s and never emptied or re-created: what one document '
                           'put there is still there for the next document of the stream, so a document is no longer interpreted '
                           'on its own' % (attr, c.name, m.qualname))
-    if n < 8:
-        raise AnalysisError('R-GROWN-STATE-RESET: only %d growing containers found (more than 8 confirmed by reading)' % n)
+    if n < minimum:
+        raise AnalysisError('R-GROWN-STATE-RESET: only %d growing containers found (%d confirmed by reading)' % (n, minimum))
     return rule
 
 
@@ -934,4 +934,414 @@ def r_yamlobject_registers_all(ctx, repo):
                       'explicitly (e.g. an already customised subclass of another listed loader) does not get the constructor')
         else:
             rule.ok(f.loc(head.stmt), 'every listed loader gets the constructor')
+    return rule
+
+
+# --------------------------------------------------------------------------------------------- R-COMPOSER-ERRORS
+def r_composer_errors(ctx, repo):
+    rule = ctx.rule('R-COMPOSER-ERRORS', 'the composer raises ComposerError only for an undefined alias, a duplicate anchor '
+                                         '(compose_node) and a second document in a single-document load (get_single_node): anything '
+                                         'else about the shape of the graph is left to the constructor')
+    allowed = {'compose_node': 2, 'get_single_node': 1}
+    c = repo.cls('composer.Composer')
+    n = 0
+    for m in c.methods.values():
+        sites = [r for r in walk_function(m.node) if isinstance(r, ast.Raise) and r.exc is not None
+                 and 'ComposerError' in norm(r.exc.func if isinstance(r.exc, ast.Call) else r.exc)]
+        for r in sites:
+            n += 1
+        if len(sites) > allowed.get(m.name, 0):
+            r = sites[-1]
+            rule.fail('%s|raise' % m.qualname, m.module.rel, r.lineno, m.qualname, A.anon_text(r, m.node, 70),
+                      '%s raises a ComposerError that is not one of the three the composer is specified to raise: documents '
+                      'that used to compose (a node used inside itself is legal for the composer; whether it can be built is the '
+                      'constructor\'s decision, reported as ConstructorError) are now rejected at the wrong stage' % m.qualname)
+        elif sites:
+            rule.ok(m.loc(sites[0]), '%s: %d ComposerError site(s)' % (m.name, len(sites)))
+    if n < 3:
+        raise AnalysisError('only %d ComposerError sites found in the composer (3 confirmed)' % n)
+    return rule
+
+
+# ---------------------------------------------------------------------------------------- R-DEEP-IFF-SETSTATE
+def r_deep_iff_setstate(ctx, repo):
+    rule = ctx.rule('R-DEEP-IFF-SETSTATE', 'construct_python_object builds the state deeply exactly when the instance has __setstate__: '
+                                           'plain instance dictionaries are filled lazily, so cycles that run through lists / dicts '
+                                           'inside the state are rebuilt as pickle rebuilds them')
+    f = _method(repo, 'constructor.FullConstructor', 'construct_python_object')
+    calls = [c for c in A.func_calls(f.node) if isinstance(c.func, ast.Attribute) and c.func.attr == 'construct_mapping']
+    if not calls:
+        raise AnalysisError('construct_python_object: construct_mapping is not called')
+    for c in calls:
+        e = next((k.value for k in c.keywords if k.arg == 'deep'), c.args[1] if len(c.args) > 1 else None)
+        if e is None:
+            rule.fail('%s|deep-missing' % f.qualname, f.module.rel, c.lineno, f.qualname, A.anon_text(c, f.node, 60),
+                      'the state is never built deeply: __setstate__ receives containers that are still empty')
+            continue
+        # resolve a local bound once
+        if isinstance(e, ast.Name):
+            defs = [s for s in walk_function(f.node) if isinstance(s, ast.Assign) and any(
+                isinstance(t, ast.Name) and t.id == e.id for t in s.targets)]
+            if len(defs) == 1:
+                e = defs[0].value
+        probes = [x for x in ast.walk(e) if isinstance(x, ast.Call) and isinstance(x.func, ast.Name) and x.func.id == 'hasattr'
+                  and len(x.args) == 2 and A.const_str(x.args[1]) == '__setstate__']
+        ok = False
+        if probes:
+            key = norm(probes[0])
+            ok = A.const_truth(e, {key: True}) is True and A.const_truth(e, {key: False}) is False
+        if ok:
+            rule.ok(f.loc(c), 'deep == hasattr(instance, \'__setstate__\')')
+        else:
+            rule.fail('%s|deep' % f.qualname, f.module.rel, c.lineno, f.qualname, A.anon_text(c, f.node, 60),
+                      'construct_python_object does not tie deep construction of the state to the presence of __setstate__: '
+                      'with deep always on, a list or dict in the state that refers back to itself or to a sibling is rejected as '
+                      'an unconstructable recursive node; with deep always off, __setstate__ sees unfilled containers')
+    return rule
+
+
+# --------------------------------------------------------------------------------------- R-PAIRS-FROM-NODES
+def r_pairs_from_nodes(ctx, repo):
+    rule = ctx.rule('R-PAIRS-FROM-NODES', 'the entries of !!omap / !!pairs are taken from the entry\'s node pairs (key node and value node '
+                                          'constructed separately), never through a dict: a dict merges equal keys and rejects '
+                                          'unhashable ones, both of which are legal here')
+    for nm in ('construct_yaml_omap', 'construct_yaml_pairs'):
+        f = _method(repo, 'constructor.SafeConstructor', nm)
+        bad = [c for c in A.func_calls(f.node) if isinstance(c.func, ast.Attribute) and c.func.attr in (
+            'construct_mapping', 'construct_yaml_map') or (isinstance(c.func, ast.Name) and c.func.id == 'dict')]
+        objs = [c for c in A.func_calls(f.node) if isinstance(c.func, ast.Attribute) and c.func.attr == 'construct_object']
+        if bad:
+            rule.fail('%s|dict' % f.qualname, f.module.rel, bad[0].lineno, f.qualname, A.anon_text(bad[0], f.node, 60),
+                      '%s builds an entry through a dict: `- {b: 2, b: 3}` collapses to one item and passes the length test, and an '
+                      'entry whose key is a sequence or mapping is rejected as unhashable' % nm)
+        elif len(objs) >= 2:
+            rule.ok(f.loc(), '%s constructs key and value from their nodes' % nm)
+        else:
+            raise AnalysisError('%s: key / value construction not found' % nm)
+    return rule
+
+
+# ----------------------------------------------------------------------------------------- R-BANG-ESCAPED-IN-LOCAL-TAG
+def r_bang_escaped(ctx, repo):
+    from . import rules_emit as RE
+    rule = ctx.rule('R-BANG-ESCAPED-IN-LOCAL-TAG', 'prepare_tag writes a "!" inside the suffix unescaped only when a real handle precedes '
+                                                   'the suffix: after the primary handle "!" it is %-escaped, otherwise !foo!bar would name '
+                                                   'the undeclared handle !foo!')
+    f = _method(repo, 'emitter.Emitter', 'prepare_tag')
+    ec = RE.CharClass(repo, f)
+    handles = [x.id for s in walk_function(f.node) if isinstance(s, ast.Assign) and isinstance(s.value, ast.Subscript)
+               and isinstance(s.value.value, ast.Attribute) and s.value.value.attr == 'tag_prefixes' for x in s.targets
+               if isinstance(x, ast.Name)]
+    if not handles:
+        raise AnalysisError('prepare_tag: the local holding the handle was not found')
+    h = handles[0]
+    import itertools
+    names = sorted(k for k in ec.alts if k != h)
+    seen = set()
+    for combo in itertools.product(*[ec.alts[k] for k in names]):
+        env = {ec.var: '!', h: '!'}
+        env.update(dict(zip(names, combo)))
+        seen.add(CW.eval_cond(repo, ec.test, env))
+    v = None if len(seen) != 1 else seen.pop()
+    raw = None if v is None else (v if ec.pass_when else (not v))
+    if raw is False:
+        rule.ok(f.loc(ec.node), '"!" after the primary handle is escaped')
+    elif raw is True:
+        rule.fail('%s|bang' % f.qualname, f.module.rel, ec.node.lineno, f.qualname, ec.text[:80],
+                  'prepare_tag writes "!" unescaped in the suffix of a tag whose handle is the primary "!": the local tag !foo!bar '
+                  'is emitted as it is and read back as handle !foo! (undeclared) with suffix bar - a parse error')
+    else:
+        # undecided by constant evaluation: use the scenario with the handle fixed
+        S = RE.Scenario(repo, f)
+        body_true = S.reach(env={ec.var: '!', h: '!'})
+        # the pass branch: statements of the branch that lets the character through
+        passing = ec.node.body if ec.pass_when else (ec.node.orelse or RE._following(ec.node))
+        rejecting = (ec.node.orelse or RE._following(ec.node)) if ec.pass_when else ec.node.body
+        pn = [n for n in S.cfg.nodes if passing and n.stmt is passing[0]]
+        rn = [n for n in S.cfg.nodes if rejecting and n.stmt is rejecting[0]]
+        p_reach = any(n in body_true for n in pn)
+        r_reach = any(n in body_true for n in rn)
+        if r_reach and not p_reach:
+            rule.ok(f.loc(ec.node), '"!" after the primary handle is escaped')
+        elif p_reach:
+            rule.fail('%s|bang' % f.qualname, f.module.rel, ec.node.lineno, f.qualname, ec.text[:80],
+                      'prepare_tag can write "!" unescaped in the suffix of a tag whose handle is the primary "!": the local tag '
+                      '!foo!bar is emitted as it is and read back as handle !foo! (undeclared) with suffix bar - a parse error')
+        else:
+            raise AnalysisError('prepare_tag: cannot decide how "!" is written after the primary handle')
+    return rule
+
+
+# ------------------------------------------------------------------------------------------ R-TAG-HANDLES-SORTED
+def r_tag_handles_sorted(ctx, repo):
+    rule = ctx.rule('R-TAG-HANDLES-SORTED', 'expect_document_start walks the handles of event.tags in sorted order: the %TAG directives '
+                                            'and the handle chosen for a prefix do not depend on the insertion order of the tags dict')
+    f = _method(repo, 'emitter.Emitter', 'expect_document_start')
+    loops = [l for l in walk_function(f.node) if isinstance(l, ast.For) and any(
+        isinstance(c, ast.Call) and isinstance(c.func, ast.Attribute) and c.func.attr == 'write_tag_directive' for c in ast.walk(l))]
+    if not loops:
+        raise AnalysisError('expect_document_start: the loop writing %TAG directives was not found')
+    for l in loops:
+        it = l.iter
+        if isinstance(it, ast.Name):
+            defs = [s for s in walk_function(f.node) if isinstance(s, ast.Assign) and any(
+                isinstance(t, ast.Name) and t.id == it.id for t in s.targets)]
+            if len(defs) == 1:
+                it = defs[0].value
+        is_sorted = isinstance(it, ast.Call) and isinstance(it.func, ast.Name) and it.func.id == 'sorted' and it.args and any(
+            isinstance(x, ast.Attribute) and x.attr == 'tags' for x in ast.walk(it.args[0])) and not any(
+            k.arg == 'key' for k in it.keywords)
+        if is_sorted:
+            rule.ok(f.loc(l), 'handles are visited in sorted order')
+        else:
+            rule.fail('%s|unsorted' % f.qualname, f.module.rel, l.lineno, f.qualname, A.anon_text(l.iter, f.node, 60),
+                      'the handles of event.tags are visited in the dict\'s own order: two equal tags= options built in different '
+                      'orders give different output (directive order; when two handles share a prefix, which one is used)')
+    return rule
+
+
+# ------------------------------------------------------------------------------------------ R-REDUCE-EXACT-TYPE
+def r_reduce_exact_type(ctx, repo):
+    rule = ctx.rule('R-REDUCE-EXACT-TYPE', 'represent_object consults copyreg.dispatch_table for the exact type of the object only (as '
+                                           'pickle and copy do): a subclass of a registered type is reduced by its own __reduce_ex__')
+    f = _method(repo, 'representer.Representer', 'represent_object')
+    data = f.params[1]
+    keys = []
+    for x in walk_function(f.node):
+        if isinstance(x, ast.Subscript) and norm(x.value).endswith('dispatch_table'):
+            keys.append((x, x.slice))
+        elif isinstance(x, ast.Compare) and len(x.ops) == 1 and isinstance(x.ops[0], (ast.In, ast.NotIn)) \
+                and norm(x.comparators[0]).endswith('dispatch_table'):
+            keys.append((x, x.left))
+        elif isinstance(x, ast.Call) and isinstance(x.func, ast.Attribute) and x.func.attr == 'get' \
+                and norm(x.func.value).endswith('dispatch_table') and x.args:
+            keys.append((x, x.args[0]))
+    if not keys:
+        raise AnalysisError('represent_object: copyreg.dispatch_table is not consulted')
+
+    def is_exact(e, depth=0):
+        if isinstance(e, ast.Call) and isinstance(e.func, ast.Name) and e.func.id == 'type' and len(e.args) == 1 \
+                and isinstance(e.args[0], ast.Name) and e.args[0].id == data:
+            return True
+        if isinstance(e, ast.Attribute) and e.attr == '__class__' and isinstance(e.value, ast.Name) and e.value.id == data:
+            return True
+        if isinstance(e, ast.Name) and depth < 3:
+            defs = [s for s in walk_function(f.node) if isinstance(s, ast.Assign) and any(
+                isinstance(t, ast.Name) and t.id == e.id for t in s.targets)]
+            bound_other = [s for s in walk_function(f.node) if isinstance(s, (ast.For, ast.comprehension)) and any(
+                isinstance(t, ast.Name) and t.id == e.id for t in ast.walk(s.target))]
+            return bool(defs) and not bound_other and all(is_exact(d.value, depth + 1) for d in defs)
+        return False
+    for x, k in keys:
+        if is_exact(k):
+            rule.ok(f.loc(x), 'dispatch_table looked up with type(data)')
+        else:
+            rule.fail('%s|dispatch-key' % f.qualname, f.module.rel, x.lineno, f.qualname, A.anon_text(x, f.node, 60),
+                      'represent_object looks copyreg.dispatch_table up with something else than the exact type of the object (a '
+                      'base class along the MRO): an instance of a subclass of a registered type (complex is always registered) '
+                      'is reduced by the base class\'s reducer and loads back as the base class, without its instance state')
+    return rule
+
+
+# -------------------------------------------------------------------------------------- R-BOUND-METHOD-RELEASED
+def r_bound_method_released(ctx, repo, classes):
+    rule = ctx.rule('R-BOUND-METHOD-RELEASED', 'every instance attribute that holds bound methods of the instance itself (a reference '
+                                               'cycle) is cleared by the dispose() of the class: an abandoned loader / dumper is '
+                                               'released without waiting for the cycle collector')
+    n = 0
+    for cq in classes:
+        c = repo.cls(cq)
+        methods = set()
+        for k in repo.classes.values():
+            if k is c or c.is_subclass_of(k) or k.is_subclass_of(c) or k.module.name in (
+                    'reader', 'scanner', 'parser', 'composer', 'constructor', 'resolver', 'emitter', 'serializer', 'representer'):
+                methods |= set(k.methods)
+        holders = {}
+        for m in c.methods.values():
+            if not m.params:
+                continue
+            sn = m.params[0]
+
+            def holds_bound(v):
+                for x in ast.walk(v):
+                    if isinstance(x, ast.Attribute) and isinstance(x.value, ast.Name) and x.value.id == sn and x.attr in methods \
+                            and isinstance(x.ctx, ast.Load):
+                        par = getattr(x, '_parent', None)
+                        if not (isinstance(par, ast.Call) and par.func is x):
+                            return True
+                return False
+            for s in walk_function(m.node):
+                if isinstance(s, ast.Assign) and holds_bound(s.value):
+                    for t in s.targets:
+                        if isinstance(t, ast.Attribute) and isinstance(t.value, ast.Name) and t.value.id == sn:
+                            holders.setdefault(t.attr, (m, s))
+                if isinstance(s, ast.Call) and isinstance(s.func, ast.Attribute) and s.func.attr in ('append', 'insert', 'extend', 'add') \
+                        and isinstance(s.func.value, ast.Attribute) and isinstance(s.func.value.value, ast.Name) \
+                        and s.func.value.value.id == sn and any(holds_bound(a) for a in s.args):
+                    holders.setdefault(s.func.value.attr, (m, s))
+        if not holders:
+            continue
+        d = c.methods.get('dispose')
+        cleared = set()
+        if d is not None and d.params:
+            for s in walk_function(d.node):
+                if isinstance(s, ast.Assign):
+                    for t in s.targets:
+                        if isinstance(t, ast.Attribute) and isinstance(t.value, ast.Name) and t.value.id == d.params[0]:
+                            cleared.add(t.attr)
+                if isinstance(s, ast.Call) and isinstance(s.func, ast.Attribute) and s.func.attr == 'clear' \
+                        and isinstance(s.func.value, ast.Attribute):
+                    cleared.add(s.func.value.attr)
+        for attr, (m, s) in sorted(holders.items()):
+            n += 1
+            if attr in cleared:
+                rule.ok(m.loc(s), '%s.%s holds bound methods and is cleared by dispose()' % (c.name, attr))
+            else:
+                rule.fail('%s|%s' % (c.qualname, attr), m.module.rel, s.lineno, m.qualname, A.anon_text(s, m.node, 60),
+                          'self.%s holds bound methods of the object itself and %s.dispose() does not clear it: the loader / dumper '
+                          'stays alive (with its stream) after dispose() until a garbage-collection pass breaks the cycle' % (attr, c.name))
+    if n < 4:
+        raise AnalysisError('R-BOUND-METHOD-RELEASED: only %d holders of bound methods found (4 confirmed: state / states of Parser and Emitter)' % n)
+    return rule
+
+
+# -------------------------------------------------------------------------------------- R-READ-ONLY-IN-UPDATE-RAW
+def r_read_only_in_update_raw(ctx, repo):
+    rule = ctx.rule('R-READ-ONLY-IN-UPDATE-RAW', 'the stream\'s read() is called by Reader.update_raw only, one bounded block at a time: '
+                                                 'no other place drains the stream')
+    R = repo.cls('reader.Reader')
+    n = 0
+    for m in R.methods.values():
+        for c in A.func_calls(m.node):
+            if isinstance(c.func, ast.Attribute) and c.func.attr in ('read', 'readline', 'readlines', 'getvalue', 'readall', 'read1', 'readinto'):
+                n += 1
+                if m.name == 'update_raw' and c.func.attr == 'read' and c.args:
+                    rule.ok(m.loc(c), 'update_raw reads one block')
+                else:
+                    rule.fail('%s|%s' % (m.qualname, c.func.attr), m.module.rel, c.lineno, m.qualname, A.anon_text(c, m.node, 60),
+                              '%s calls .%s(%s) on the input: the stream is consumed outside the block-wise refill (for an in-memory '
+                              'stream: completely, before the first document is delivered)' % (m.qualname, c.func.attr,
+                                                                                              '' if not c.args else '...'))
+    if not n:
+        raise AnalysisError('Reader never reads its stream')
+    return rule
+
+
+# ------------------------------------------------------------------------------------------ R-DOC-END-LOOKAHEAD
+def r_doc_end_lookahead(ctx, repo):
+    rule = ctx.rule('R-DOC-END-LOOKAHEAD', 'a document is complete for the parser only once it has seen the token that follows it: '
+                                           'parse_document_end asks the scanner for that token before it emits DocumentEnd')
+    f = _method(repo, 'parser.Parser', 'parse_document_end')
+    cfg = CFG(f.node)
+    looks = [n for n in cfg.nodes if n.ast is not None and any(
+        isinstance(x, ast.Call) and isinstance(x.func, ast.Attribute) and x.func.attr in ('peek_token', 'check_token', 'get_token')
+        for x in own_exprs(n))]
+    events = [n for n in cfg.nodes if n.ast is not None and any(
+        isinstance(x, ast.Call) and norm(x.func) == 'DocumentEndEvent' for x in own_exprs(n))]
+    if not events:
+        raise AnalysisError('parse_document_end: DocumentEndEvent is not built here')
+    looks.sort(key=lambda n: n.lineno)
+    if looks and all(any(cfg.dominates(l, e) for l in looks) for e in events):
+        rule.fail('%s|lookahead-before-event' % f.qualname, f.module.rel, looks[0].lineno, f.qualname,
+                  A.anon_text(looks[0].ast, f.node, 60),
+                  'the end of a document that is not closed by `...` is recognised by looking at the next token; when scanning that '
+                  'token fails, the error is raised before the completed document has been delivered')
+    else:
+        rule.ok(f.loc(), 'DocumentEnd is emitted without a look-ahead')
+    return rule
+
+
+# ---------------------------------------------------------------------------------- R-BLOCK-INCREMENT-RELATIVE
+def r_block_increment_relative(ctx, repo):
+    from .rules_reader import linear_form
+    rule = ctx.rule('R-BLOCK-INCREMENT-RELATIVE', 'with an explicit indentation indicator n the content of a block scalar is indented by n '
+                                                  'relative to the parent node: scan_block_scalar computes indent = (parent indent + 1) + n - 1, '
+                                                  'which is what the emitter writes (parent indent + best_indent with the hint best_indent)')
+    f = _method(repo, 'scanner.Scanner', 'scan_block_scalar')
+    cfg = CFG(f.node)
+    # the local that receives the indicator: second element of the tuple returned by scan_block_scalar_indicators
+    inc = None
+    for s in walk_function(f.node):
+        if isinstance(s, ast.Assign) and isinstance(s.value, ast.Call) and isinstance(s.value.func, ast.Attribute) \
+                and s.value.func.attr == 'scan_block_scalar_indicators' and isinstance(s.targets[0], ast.Tuple) \
+                and len(s.targets[0].elts) == 2 and isinstance(s.targets[0].elts[1], ast.Name):
+            inc = s.targets[0].elts[1].id
+    if inc is None:
+        raise AnalysisError('scan_block_scalar: the indentation indicator is not bound to a local')
+    # the local compared with self.column in the content loop
+    ind = None
+    for s in walk_function(f.node):
+        if isinstance(s, ast.While):
+            for k in A.conjuncts(s.test):
+                if isinstance(k, ast.Compare) and len(k.ops) == 1 and isinstance(k.ops[0], ast.Eq) and norm(k.left).endswith('.column') \
+                        and isinstance(k.comparators[0], ast.Name):
+                    ind = k.comparators[0].id
+    if ind is None:
+        raise AnalysisError('scan_block_scalar: the content loop `while self.column == indent` was not found')
+    defs = [n for n in cfg.nodes if n.kind == 'stmt' and isinstance(n.ast, ast.Assign) and any(
+        isinstance(t, ast.Name) and t.id == ind for t in n.ast.targets) and any(
+        isinstance(x, ast.Name) and x.id == inc for x in ast.walk(n.ast.value))]
+    if not defs:
+        rule.fail('%s|unused' % f.qualname, f.module.rel, f.node.lineno, f.qualname, inc,
+                  'the explicit indentation indicator does not enter the computation of the content indentation')
+        return rule
+    # min_indent = self.indent + 1 (bounded below by 1): expand that local
+    def expand(e):
+        if isinstance(e, ast.Name) and e.id not in (inc, ind):
+            ds = [s for s in walk_function(f.node) if isinstance(s, ast.Assign) and len(s.targets) == 1
+                  and isinstance(s.targets[0], ast.Name) and s.targets[0].id == e.id]
+            forms = [linear_form(d.value) for d in ds]
+            forms = [x for x in forms if x is not None and any(k.endswith('.indent') for k in x)]
+            if forms:
+                return forms[0]
+        return None
+    for d in defs:
+        lf = linear_form(d.ast.value, expand=expand)
+        want_ok = lf is not None and lf.get(inc) == 1 and lf.get('', 0) == 0 and sum(
+            v for k, v in lf.items() if k.endswith('.indent')) == 1 and set(lf) - {''} == {inc} | {k for k in lf if k.endswith('.indent')}
+        if want_ok:
+            rule.ok(f.loc(d.ast), 'indent = parent indent + indicator')
+        else:
+            rule.fail('%s|increment' % f.qualname, f.module.rel, d.lineno, f.qualname, A.anon_text(d.ast, f.node, 60),
+                      'the content indentation for an explicit indicator n is not (parent indentation) + n: a block scalar that the '
+                      'dumper wrote with an indicator (its text starts with a space or a line break) is read back with leading '
+                      'spaces added or removed once it is nested')
+    return rule
+
+
+# ----------------------------------------------------------------------------------- R-PRINTABLE-PER-CHARACTER
+def r_printable_per_character(ctx, repo):
+    import re._parser as rp
+    import re._constants as rc
+    rule = ctx.rule('R-PRINTABLE-PER-CHARACTER', 'Reader.NON_PRINTABLE matches single characters regardless of their neighbours (one '
+                                                 'character class, no look-around, no sequences): check_printable is applied to each decoded '
+                                                 'chunk separately, so only a per-character test gives the same verdict for every chunking')
+    R = repo.cls('reader.Reader')
+    npv = R.attrs.get('NON_PRINTABLE')
+    if not npv or not isinstance(npv[-1], ast.Call) or not npv[-1].args:
+        raise AnalysisError('Reader.NON_PRINTABLE has vanished')
+    pat = A.fold_str(npv[-1].args[0], R.module)
+    if pat is None:
+        raise AnalysisError('Reader.NON_PRINTABLE is not a literal')
+    tree = rp.parse(pat)
+
+    def single(items):
+        items = list(items)
+        if len(items) != 1:
+            return False
+        op, av = items[0]
+        if op in (rc.IN, rc.LITERAL, rc.NOT_LITERAL, rc.CATEGORY, rc.ANY):
+            return True
+        if op is rc.BRANCH:
+            return all(single(alt) for alt in av[1])
+        if op is rc.SUBPATTERN:
+            return single(av[3])
+        return False
+    if single(tree):
+        rule.ok('%s:%d' % (R.module.rel, npv[-1].lineno), 'NON_PRINTABLE is a single character class')
+    else:
+        rule.fail('reader.Reader|NON_PRINTABLE|context', R.module.rel, npv[-1].lineno, 'reader.Reader', 'NON_PRINTABLE',
+                  'NON_PRINTABLE looks at more than one character (a sequence, or a look-ahead / look-behind): whether a character '
+                  'is accepted then depends on whether its neighbour was delivered in the same chunk, so a stream and the same '
+                  'text as str can disagree')
     return rule
